@@ -388,6 +388,12 @@ class SelectedMailbox:
             if msg_sflags != updated_sflags:
                 self._silenced_sflags.add((msg.uid, updated_sflags))
 
+    def unsilence(self) -> None:
+        """Forget the flag updates silenced by :meth:`.silence`, e.g. because
+        the command that asked for them has failed."""
+        self._silenced_flags.clear()
+        self._silenced_sflags.clear()
+
     def fork(self, command: Command) \
             -> tuple[SelectedMailbox, Iterable[UntaggedResponse]]:
         """Compares the state of the current object to that of the last fork,
